@@ -337,3 +337,11 @@ package enginetest
 //@ func badRangedSum_ensures
 //@   ensures [C92.x] result == 3
 //@   loop 1 invariant len($ranged(1)) == 3 && $ranged(1)[0] == 1 && $ranged(1)[1] == 2 && $ranged(1)[2] == 3 && s <= $i + 1 && $i <= 2
+//@ protect once.{val} write_once once.mu
+//@ racestrict once
+//@ func (o *once) okSetOnce
+//@   requires o != nil
+//@ func (o *once) okReadAfterSeen
+//@   requires o != nil
+//@ func (o *once) badSetAfterRelease_writeonce
+//@   requires o != nil
